@@ -1,4 +1,4 @@
 SPECIFICATION Spec
-CONSTANTS MaxDim = 3 EmitJson = TRUE Lambdas = {0, 1, 1000000} Small3D = TRUE
+CONSTANTS MaxDim = 4 EmitJson = TRUE Lambdas = {0, 1, 1000000} Small3D = TRUE
 INVARIANTS Check EmitProblem
 CHECK_DEADLOCK FALSE
